@@ -427,3 +427,8 @@ pub const fn l<T>(layer: usize) -> Action<'static, T> {
 pub const fn d<T>(layer: usize) -> Action<'static, T> {
     Action::DefaultLayer(layer)
 }
+
+// Verification hook (add-only, compiled only by `cargo kani`): contract harnesses live in /verif.
+#[cfg(kani)]
+#[path = "/verif/kani/harness/action.rs"]
+mod verif_kani;
